@@ -21,6 +21,27 @@ CHECKS["C11"] = dict(
     text="~19k (quick) / ~256k (thorough) (text, config) pairs: runs of items of every parser-clean .cairo file, whitespace/comment/comma mutated, formatted under sampled configurations; five oracles per case, all evaluated even when an earlier one hits a known finding. Exploration with exact per-input oracles.",
     note="Trusted: my token/comment extraction over the syntax tree and the normalisation N1-N3 (DESIGN C11) of meaning-free optional separators; Sierra equality (debug names, source offsets stripped) checks that these never change code. Known findings: comment-placement non-idempotence, use-section regrouping, macro-rule comments, '/'+comment gluing.")
 
+CHECKS["C01"] = dict(
+    level="exploration", design="DESIGN.md 3/C01",
+    technique="property-based differential testing: type-directed random Cairo programs (own IR) x boundary/small/random inputs x compiler configurations, against an independent BigInt reference evaluator of the IR",
+    text="1,536 (quick) / 20,480 (thorough) generated programs, each run on 8 argument vectors under the default and one drawn configuration (optimisations off, inlining strategies, const folding off, numeric-match thresholds; non-linear solvers on small programs): the Serde-serialised result or the panic data must equal the reference evaluator's outcome felt for felt. The entry point also returns a digest of all scalar variables and guarded identity/neighbour probes, so intermediate values are observable.",
+    note="Trusted: the reference evaluator (oracle/eval.rs) as the statement of the documented semantics (corelib panic strings, truncated signed division, left-to-right evaluation, Serde layout); cairo-vm as the machine. Limited to the modelled subset (see DESIGN 2.2).")
+CHECKS["C02"] = dict(
+    level="exploration", design="DESIGN.md 3/C02",
+    technique="property-based testing: generated programs + Sierra-type-directed in-range arguments for corpus functions + gas-budget sweeps; oracle: the VM run returns Ok (value or Sierra-level panic), never CairoRunError",
+    text="~20k executions per quick run: generated programs on panic-provoking inputs, every free function with constructible parameter types from the e2e libfunc snippets and examples on boundary/in-range arguments, each also re-run under 3 gas budgets swept between the entry cost and 1.5x the honest consumption so that withdraw_gas fails at different points; both solvers, several front-end configurations.",
+    note="Trusted: arguments are in range by Sierra parameter type (my generator), honest hints are the runner's. Budget 3*10^8 gas keeps the gas-bounded step count feasible. Mutants of Sierra that still compile are exercised by C15's population, not here.")
+CHECKS["C04"] = dict(
+    level="exploration", design="DESIGN.md 3/C04",
+    technique="property-based testing with a trace invariant: 100*steps + sum price(b)*uses(b) <= (gas given - gas left) + 100 on every execution with a gas counter, under both gas solvers and swept budgets",
+    text="~11k judged executions per quick run (generated programs with loops/recursion/dicts/arrays, corpus functions), half of them out-of-gas runs produced by the budget sweep; the inequality is tight on this tree (hundreds of runs with slack exactly 0), so an undercharge of one step on a covered path flips it.",
+    note="Trusted: step count from the relocated trace outside the entry-code header; prices from ConstCost/token_gas_cost; memory holes unpriced (weaker, no false alarms). Solver Err = no metadata, skipped.")
+CHECKS["C17"] = dict(
+    level="exploration", design="DESIGN.md 3/C17",
+    technique="property-based testing with trace invariants: per dynamic call frame ap_at_ret - ap_at_entry == declared ap change; statement ranges tile the bytecode; executed pcs are instruction boundaries in exactly one range",
+    text="~12k executions / ~400k checked call frames per quick run over generated programs (recursion, nested calls, loops) and corpus functions, alternating linear and non-linear ap-change solvers; static layout invariants checked for every compiled program.",
+    note="Trusted: frames are delimited by call/ret of the compiled instruction list (pcs beyond it - const segments, footer - are bare rets).")
+
 PENDING_REASON = "check not built yet in this session (planned in DESIGN.md section 3; the property itself is amenable to the technique)"
 
 def main():
